@@ -92,7 +92,7 @@ def standin_bounded(prop, name=None, extra_args=()):
     """bounded stand-in: the executable relation of the property evaluated on the real code over the
     enumerated corpus of /verif/standin (stated bound: --n cases per class, seeded)."""
     def run(pc):
-        n = 120 if pc.tier == "quick" else 1200
+        n = 260 if pc.tier == "quick" else 1200      # 260 >= every single-field boundary recipe of the largest class
         env = dict(os.environ)
         env["PYTHONPATH"] = VERIF
         env.setdefault("PYVC_REPO", front.REPO)
@@ -105,7 +105,7 @@ def standin_bounded(prop, name=None, extra_args=()):
         for f in r.get("failures", []):
             fails.append({"match": f.get("match"), "concrete_call": {"class": f.get("class"), "how": f.get("how"), "repr": f.get("repr")},
                           "observed": f.get("detail")})
-        return {"name": name or f"standin:{prop}", "label": "bounded", "bound": f"{n} cases per class, seed {pc.seed}",
+        return {"name": name or f"standin:{prop}", "label": "bounded", "bound": f"{n} cases per class (all single-field boundary recipes first, then seeded combinations), seed {pc.seed}",
                 "cases": r.get("cases", 0), "distinct_nontrivial": r.get("distinct_nontrivial", 0),
                 "n_failures": r.get("n_failures", 0), "samples": r.get("samples", [])[:3], "failures": fails}
     return run
